@@ -24,7 +24,7 @@
 From Coq Require Import ZArith List Bool Sorted Permutation.
 From V Require Import Model.ZMap Model.Quorum Model.HgImpl Model.HgReset Model.PeerSetSpec
   Proofs.ZMapFacts Proofs.AdmissionProofs Proofs.BlockInv Proofs.OrderProofs
-  Proofs.PeerSetProofs Proofs.ResetProofs Proofs.ResetServer Proofs.ResetMemo Proofs.ResetRound Proofs.ResetWitness Proofs.ResetRefute Proofs.ResetWitnessOk Proofs.ResetExample Proofs.Static Proofs.ResetShape.
+  Proofs.PeerSetProofs Proofs.ResetProofs Proofs.ResetServer Proofs.ResetMemo Proofs.ResetRound Proofs.ResetWitness Proofs.ResetRefute Proofs.ResetWitnessOk Proofs.ResetExample Proofs.Static Proofs.ResetAfter Proofs.ResetOrder Proofs.ResetDag Proofs.ResetShape Proofs.ResetWitnessDeliv Proofs.ResetExampleDeliv.
 Import ListNotations.
 Open Scope Z_scope.
 
@@ -252,6 +252,152 @@ Proof.
     C13_reset_validators v b f cores v' (anchor_frame_shape g all ID NA ss os ops b f cores s' Ho Hs H)).
 Qed.
 Print Assumptions C13_reset_validators_served.
+
+(** * C02 for a node that fast-forwarded: the blocks delivered AFTER the reset *)
+
+(* consecutive indexes from the anchor's index + 1: for ANY victim state, block, frame (no
+   hypothesis at all) and any continuation (insertion attempts of arbitrary events, ProcessSigPool).
+   [delivered] keeps the callbacks made before the reset (Reset does not touch the list); the k-th
+   new one has index max(anchor index, -1) + 1 + k and is stored under that index *)
+Theorem C13_after_reset_consecutive : forall v b f cores v' ops,
+  node_fast_forward v b f cores = (true, v') ->
+  exists news, delivered (hrun v' ops) = delivered v ++ news /\
+    last_block (hrun v' ops) = Z.max (b_index b) (-1) + Z.of_nat (length news) /\
+    forall k d, nth_error news k = Some d ->
+      b_index d = Z.max (b_index b) (-1) + 1 + Z.of_nat k /\
+      exists sb, zget (b_index d) (blocks (hrun v' ops)) = Some sb /\ b_index sb = b_index d.
+Proof. exact deliveries_after_reset_consecutive. Qed.
+Print Assumptions C13_after_reset_consecutive.
+
+(* round-received strictly increases along the new blocks and stays above the anchor's, provided
+   the frame has the shape and records no round above the anchor's round-received (both are theorems
+   for honest responders, below).  Proved with the queue invariant of C02 generalised to
+   roundLowerBound = Some lb (Proofs/ResetOrder.v: rinvR) *)
+Theorem C13_after_reset_rr_increasing : forall v b f cores v' ops,
+  frame_shape f -> Forall (fun fe => fe_round fe <= b_rr b) (all_frame_events f) -> 0 <= b_rr b ->
+  node_fast_forward v b f cores = (true, v') ->
+  exists news, delivered (hrun v' ops) = delivered v ++ news /\
+    StronglySorted Z.lt (map b_rr news) /\ forall d, In d news -> b_rr b < b_rr d.
+Proof. exact (fun v b f cores v' ops FS RB R0 FF => deliveries_after_reset_increasing v b f cores v' FS RB R0 FF ops). Qed.
+Print Assumptions C13_after_reset_rr_increasing.
+
+(* the queue invariant itself holds right after the fast-forward and in every later state in which
+   no pass has hit a store error *)
+Theorem C13_after_reset_queue_invariant : forall v b f cores v' ops,
+  frame_shape f -> Forall (fun fe => fe_round fe <= b_rr b) (all_frame_events f) -> 0 <= b_rr b ->
+  node_fast_forward v b f cores = (true, v') ->
+  failed (hrun v' ops) = false -> rinvR (b_rr b) (last_round v') (delivered v) (hrun v' ops).
+Proof.
+  exact (fun v b f cores v' ops FS RB R0 FF =>
+    proj2 (hrun_rtopR (b_rr b) (last_round v') (delivered v) (proj2 (reset_last_round v b f cores v' FS RB R0 FF)) ops v'
+             (rinvR_rtopR _ _ _ v' (reset_rinvR v b f cores v' FS RB R0 FF)))).
+Qed.
+Print Assumptions C13_after_reset_queue_invariant.
+
+(* honest responder (static membership), any victim, any continuation: C02's "0, or the block after
+   a fast-sync anchor" as a theorem *)
+Theorem C13_after_reset_served : forall g all ss os ops b f cores s' v v' ops',
+  ids_determine all -> no_accept all -> Forall (hop_ok all) ops -> ss <> -1 ->
+  anchor_block_with_frame (hrun (init_hg ss g os) ops) = (Some (b, f, cores), s') ->
+  node_fast_forward v b f cores = (true, v') ->
+  exists news, delivered (hrun v' ops') = delivered v ++ news /\
+    (forall k d, nth_error news k = Some d -> b_index d = b_index b + 1 + Z.of_nat k) /\
+    StronglySorted Z.lt (map b_rr news) /\ (forall d, In d news -> b_rr b < b_rr d).
+Proof. exact after_reset_served. Qed.
+Print Assumptions C13_after_reset_served.
+
+(* the theorem above is not vacuous: on a history of real node.core objects
+   (corpus/C13-after-reset-example.trace, 4 validators, 25 events; Proofs/ResetWitnessDeliv.v) its
+   premises hold for the serving node 2 ([rd_server] = hrun (init_hg 2 ...) rd_server_ops), node 3
+   ([rd_v0], nothing delivered yet) fast-forwards to the anchor block (index 0, round received 1),
+   and the operations it performs afterwards deliver two more blocks: indexes 1, 2, rounds
+   received 2, 3 *)
+Theorem C13_after_reset_served_nonvacuous :
+  (ids_determine rd_all /\ no_accept rd_all /\ Forall (hop_ok rd_all) rd_server_ops /\ rd_server_self <> -1) /\
+  exists b f cores s' v',
+    anchor_block_with_frame rd_server = (Some (b, f, cores), s') /\
+    node_fast_forward rd_v0 b f cores = (true, v') /\
+    b_index b = 0 /\ b_rr b = 1 /\
+    map (fun d => (b_index d, b_rr d)) (delivered v') = [] /\
+    map (fun d => (b_index d, b_rr d)) (delivered (hrun v' rd_victim_ops_after)) = [(1, 2); (2, 3)].
+Proof. exact rd_nonvacuous. Qed.
+Print Assumptions C13_after_reset_served_nonvacuous.
+
+(** * C07 for a node that fast-forwarded: the events admitted AFTER the reset *)
+
+(* InsertFrameEvent checks nothing (no signature check, parents may be absent, a creator's
+   RollingIndex starts at the index of its first root event), so the frame's own events are exempt.
+   Premises: the frame has the shape; the bodies shipped with it have non-negative indexes and
+   belong to the universe [all] the later insertion attempts are drawn from, in which identifiers
+   determine bodies ([cores_ok]; a theorem for honest responders, below).  Then every event x stored
+   later that is not one of the frame's events: comes from an attempt, is stored under its own
+   identifier, is signed, its self-parent is a stored event of the same creator with index + 1 (or
+   it is a first event, index 0), its other-parent is stored, and it is listed in its creator's
+   index at position (index - first index of the window) *)
+Theorem C13_after_reset_admission : forall v b f cores v' all ops,
+  frame_shape f -> cores_ok all cores f -> ids_determine all -> Forall (hop_ok all) ops ->
+  node_fast_forward v b f cores = (true, v') ->
+  forall x es, get_event (hrun v' ops) x = Some es -> ~ In x (map fe_id (all_frame_events f)) ->
+    In (ev_e es) all /\ e_id (ev_e es) = x /\ e_sigok (ev_e es) = true /\
+    ((e_sp (ev_e es) = -1 /\ e_index (ev_e es) = 0) \/
+     exists ps, get_event (hrun v' ops) (e_sp (ev_e es)) = Some ps /\ e_creator (ev_e ps) = e_creator (ev_e es) /\
+                e_index (ev_e es) = e_index (ev_e ps) + 1) /\
+    (e_op (ev_e es) = -1 \/ exists po, get_event (hrun v' ops) (e_op (ev_e es)) = Some po) /\
+    exists p, zget (e_creator (ev_e es)) (pevents (hrun v' ops)) = Some p /\ 0 <= firstix p <= e_index (ev_e es) /\
+              nth_error (pi_items p) (Z.to_nat (e_index (ev_e es) - firstix p)) = Some x.
+Proof. exact admitted_after_reset_event. Qed.
+Print Assumptions C13_after_reset_admission.
+
+(* the per-creator windows (frame events included): every listed item is a stored event of that
+   creator whose index is the window's first index + its position ("indexes = heights relative to
+   the frame's roots"); and the windows the reset built are only ever extended at the end, their
+   first index does not move *)
+Theorem C13_after_reset_index_windows : forall v b f cores v' all ops,
+  frame_shape f -> cores_ok all cores f -> ids_determine all -> Forall (hop_ok all) ops ->
+  node_fast_forward v b f cores = (true, v') ->
+  (forall c p, zget c (pevents (hrun v' ops)) = Some p ->
+     (pi_items p = [] -> pi_last p = -1) /\ 0 <= firstix p /\
+     forall i x, nth_error (pi_items p) i = Some x ->
+       exists es, get_event (hrun v' ops) x = Some es /\ e_creator (ev_e es) = c /\
+                  e_index (ev_e es) = firstix p + Z.of_nat i) /\
+  (forall c p0, zget c (pevents v') = Some p0 ->
+     exists p more, zget c (pevents (hrun v' ops)) = Some p /\ pi_items p = pi_items p0 ++ more /\
+                    (pi_items p0 <> [] -> firstix p = firstix p0)).
+Proof. exact admitted_after_reset_windows. Qed.
+Print Assumptions C13_after_reset_index_windows.
+
+(* no fork among the events admitted after the reset *)
+Theorem C13_after_reset_no_fork : forall v b f cores v' all ops,
+  frame_shape f -> cores_ok all cores f -> ids_determine all -> Forall (hop_ok all) ops ->
+  node_fast_forward v b f cores = (true, v') ->
+  forall x y ex ey, get_event (hrun v' ops) x = Some ex -> get_event (hrun v' ops) y = Some ey ->
+    ~ In x (map fe_id (all_frame_events f)) -> ~ In y (map fe_id (all_frame_events f)) ->
+    e_creator (ev_e ex) = e_creator (ev_e ey) -> e_index (ev_e ex) = e_index (ev_e ey) -> x = y.
+Proof. exact admitted_after_reset_no_fork. Qed.
+Print Assumptions C13_after_reset_no_fork.
+
+(* honest responder (static membership): [frame_shape] and [cores_ok] are theorems; the generalised
+   admission invariant (Proofs/ResetDag.v: dag_okR, exempt set = the frame's events) holds in every
+   state the reset node reaches, all its events come from attempts, its windows only grow *)
+Theorem C13_after_reset_admission_served : forall g all ss os ops b f cores s' v v' ops',
+  ids_determine all -> no_accept all -> Forall (hop_ok all) ops -> ss <> -1 ->
+  anchor_block_with_frame (hrun (init_hg ss g os) ops) = (Some (b, f, cores), s') ->
+  node_fast_forward v b f cores = (true, v') -> Forall (hop_ok all) ops' ->
+  dag_okR (frame_ids f) (hrun v' ops') /\ from_attempts (hrun v' ops') all /\ grows v' (hrun v' ops').
+Proof. exact admitted_after_reset_served. Qed.
+Print Assumptions C13_after_reset_admission_served.
+
+(* not vacuous: on corpus/C13-after-reset-example.trace the reset node's later operations are drawn
+   from the same universe and event 24 (created by the reset node after the reset) is stored at the
+   end and is not one of the frame's events *)
+Theorem C13_after_reset_admission_nonvacuous :
+  Forall (hop_ok rd_all) rd_victim_ops_after /\
+  exists b f cores s' v' es,
+    anchor_block_with_frame rd_server = (Some (b, f, cores), s') /\
+    node_fast_forward rd_v0 b f cores = (true, v') /\
+    get_event (hrun v' rd_victim_ops_after) 24 = Some es /\ ~ In 24 (map fe_id (all_frame_events f)).
+Proof. exact (conj rd_victim_ops_ok rd_admitted_example). Qed.
+Print Assumptions C13_after_reset_admission_nonvacuous.
 
 (** * Continuity of rounds, witness flags, Lamport timestamps under [roots_sufficient] *)
 
